@@ -123,7 +123,7 @@ pub fn run_history(case: &Case, mut on_step: impl FnMut(StepReport)) -> Result<(
 
 pub struct Histories;
 
-fn describe_case(case: &Case) -> Value {
+pub fn describe_case(case: &Case) -> Value {
     json!({
         "stratum": case.stratum,
         "initial": case.initial,
@@ -322,6 +322,26 @@ impl Check for Published {
             let _ = fresh.settle();
             let want = fresh.diagnostics().into_iter().filter(|p| p.uri == u).last();
             r.evals += 1;
+            // the analysis the broker hands to every feature handler (text, tokens, tree, symbol table)
+            match (live.info(&u), fresh.info(&u)) {
+                (Some(a), Some(b)) => {
+                    let d = catch(|| difference(&a, &b).map(|(c, w)| (c.to_string(), w)));
+                    if let Ok(Some((component, what))) = d {
+                        r.fail(
+                            format!("broker-state-differs:{}", component),
+                            format!("after notification {} the analysis the document broker serves differs from the analysis of a fresh didOpen of the same text: {}", k + 1, what),
+                            describe_case(&case),
+                        );
+                        return r;
+                    }
+                }
+                (a, b) => {
+                    if a.is_some() != b.is_some() {
+                        r.fail("broker-state-missing", format!("after notification {} the broker serves {} analysis", k + 1, if a.is_some() { "an" } else { "no" }), describe_case(&case));
+                        return r;
+                    }
+                }
+            }
             let strip = |p: &Option<lsp_types::PublishDiagnosticsParams>| p.as_ref().map(|p| p.diagnostics.iter().map(|d| (d.range, d.message.clone(), d.severity)).collect::<Vec<_>>());
             if strip(&got) != strip(&want) {
                 r.fail(
